@@ -89,7 +89,7 @@ class C05(Prop):
     pid = "C05"
     prop_file = "Props/C05.v"
     module = "Props.C05"
-    gen_deps = ["Style", "Render", "RenderFn"]
+    gen_deps = ["Style", "StyleFn", "Render", "RenderFn"]
     harness = ("h-core", "hcore")
     nontrivial_rule = ("cases: every one of the 4096 effect sets through Style and through Effects::render; all 16 palette and all 256 indexed colours in each of "
                        "the three slots (and through Color / AnsiColor / Ansi256Color ::render_fg/bg); every value 0..255 of each RGB component in each slot; seeded "
